@@ -45,8 +45,11 @@ def write(pid, tier, seed, wall_s, obligations, violations, known, assumptions, 
         cov.update({k: v for k, v in extra.items() if k not in cov})
     ev = dict(property_id=pid, tier=tier, seed=seed, level="model_checking", coverage=cov,
               assumptions=assumptions, wall_s=round(wall_s, 2), violations=violations)
-    os.makedirs(os.path.join(VERIF, "evidence"), exist_ok=True)
-    path = os.path.join(VERIF, "evidence", f"{pid}.json")
+    # VERIF_EVIDENCE_DIR redirects the file for development runs (mutant evaluation, tier experiments); the registered commands
+    # do not set it, so they always write /verif/evidence/<id>.json
+    edir = os.environ.get("VERIF_EVIDENCE_DIR") or os.path.join(VERIF, "evidence")
+    os.makedirs(edir, exist_ok=True)
+    path = os.path.join(edir, f"{pid}.json")
     tmp = path + ".tmp"
     with open(tmp, "w") as f:
         json.dump(ev, f, indent=1, default=str)
